@@ -143,9 +143,7 @@ func (d *dir) RepoGet(ctx context.Context, repoStr string) (Repo, error) {
 		log:     d.log,
 	}
 	uploadCacheOpts := cache.Opts[string, *dirRepoUpload]{
-		PruneFn:     func(_ string, dru *dirRepoUpload) error { return dru.delete() },
-		PrunePreFn:  func(_ string, dru *dirRepoUpload) { dru.mu.Lock() },
-		PrunePostFn: func(_ string, dru *dirRepoUpload) { dru.mu.Unlock() },
+		PruneFn: func(_ string, dru *dirRepoUpload) error { return dru.delete() },
 	}
 	if d.conf.Storage.GC.RepoUploadMax > 0 {
 		uploadCacheOpts.Count = d.conf.Storage.GC.RepoUploadMax
@@ -704,14 +702,15 @@ func (dr *dirRepo) gc() error {
 
 // Write is used to push content into the blob.
 func (dru *dirRepoUpload) Write(p []byte) (int, error) {
+	// verify session still exists and update last write time
+	// the cache is never called with the upload lock held, pruning takes the cache lock before the upload lock
+	if _, err := dru.dr.uploads.Get(dru.sessionID); err != nil {
+		return 0, fmt.Errorf("session expired %s: %w", dru.sessionID, err)
+	}
 	dru.mu.Lock()
 	defer dru.mu.Unlock()
 	if dru.w == nil {
 		return 0, fmt.Errorf("writer is closed")
-	}
-	// verify session still exists and update last write time
-	if _, err := dru.dr.uploads.Get(dru.sessionID); err != nil {
-		return 0, fmt.Errorf("session expired %s: %w", dru.sessionID, err)
 	}
 	n, err := dru.w.Write(p)
 	dru.size += int64(n)
@@ -720,45 +719,57 @@ func (dru *dirRepoUpload) Write(p []byte) (int, error) {
 
 // Close finishes an upload, verifying digest if requested, and moves it into the blob store.
 func (dru *dirRepoUpload) Close() error {
+	moved, err := dru.moveToBlobs()
+	if !moved {
+		return err
+	}
+	// the session is removed after the upload lock is released, pruning takes the cache lock before the upload lock
+	err = errors.Join(err, dru.dr.uploads.Delete(dru.sessionID))
+	dru.dr.log.Debug("blob created", "repo", dru.dr.name, "digest", dru.Digest().String(), "err", err)
+	return err
+}
+
+// moveToBlobs verifies the digest if requested and renames the temp file into the blob store.
+// The return is true when the rename was attempted.
+func (dru *dirRepoUpload) moveToBlobs() (bool, error) {
 	dru.mu.Lock()
 	defer dru.mu.Unlock()
 	err := dru.fh.Close()
 	if err != nil {
-		return errors.Join(err, os.Remove(dru.filename))
+		return false, errors.Join(err, os.Remove(dru.filename))
 	}
 	if dru.expect != "" && dru.d.Digest() != dru.expect {
-		return errors.Join(fmt.Errorf("digest mismatch, expected %s, received %s", dru.expect, dru.d.Digest()),
+		return false, errors.Join(fmt.Errorf("digest mismatch, expected %s, received %s", dru.expect, dru.d.Digest()),
 			os.Remove(dru.filename))
 	}
 	// move temp file to blob store
 	tgtDir := filepath.Join(dru.path, blobsDir, dru.d.Digest().Algorithm().String())
 	fi, err := os.Stat(tgtDir)
 	if err == nil && !fi.IsDir() {
-		return errors.Join(fmt.Errorf("failed to move file to blob storage, %s is not a directory", tgtDir),
+		return false, errors.Join(fmt.Errorf("failed to move file to blob storage, %s is not a directory", tgtDir),
 			os.Remove(dru.filename))
 	}
 	if err != nil {
 		//#nosec G301 directory permissions are intentionally world readable.
 		err = os.MkdirAll(tgtDir, 0755)
 		if err != nil {
-			return errors.Join(fmt.Errorf("unable to create blob storage directory %s: %w", tgtDir, err),
+			return false, errors.Join(fmt.Errorf("unable to create blob storage directory %s: %w", tgtDir, err),
 				os.Remove(dru.filename))
 		}
 	}
 	blobName := filepath.Join(tgtDir, dru.d.Digest().Encoded())
-	err = errors.Join(os.Rename(dru.filename, blobName), dru.dr.uploads.Delete(dru.sessionID))
-	dru.dr.log.Debug("blob created", "repo", dru.dr.name, "digest", dru.d.Digest().String(), "err", err)
-	return err
+	return true, os.Rename(dru.filename, blobName)
 }
 
 // Cancel is used to stop an upload.
 func (dru *dirRepoUpload) Cancel() error {
-	dru.mu.Lock()
-	defer dru.mu.Unlock()
 	return dru.dr.uploads.Delete(dru.sessionID)
 }
 
+// delete is the prune function of the upload cache, it is called with the cache lock held or released but never with the upload lock held.
 func (dru *dirRepoUpload) delete() error {
+	dru.mu.Lock()
+	defer dru.mu.Unlock()
 	dru.w = nil
 	if dru.fh != nil {
 		_ = dru.fh.Close()
